@@ -14,8 +14,11 @@ Holds(ff) == \A g \in {v \in Vec4(Box) : v[3] = 0 /\ v[4] \in {0, 1}} : \A F \in
 Genuine == LET ff == <<3, 1, 0, 0>>  g == <<1, 2, 0, 0>>
                sols == {FG \in {<<a, b>> : a \in Vec4(-3..3), b \in {<<x, y, 0, 0>> : x, y \in -9..9}} : SchoolDet(ff, FG[2], g, FG[1], 17)}
            IN \A FG \in sols : DetEquals(ff, FG[2], g, FG[1], 17).holds
-Init == f \in Vec4(Box)
-Next == UNCHANGED f
+\* two-level fan-out (root -> 16 shards -> jobs) so that all workers share the jobs
+JobSeq == SetToSeq(Vec4(Box))
+Init == f = <<-100>>
+Next == \/ f = <<-100>> /\ \E k \in 0..15 : f' = <<-200, k>>
+        \/ f[1] = -200 /\ \E i \in 1..Len(JobSeq) : i % 16 = f[2] /\ f' = JobSeq[i]
 Spec == Init /\ [][Next]_f
-Theorems == Holds(f)
+Theorems == f[1] \in {-100, -200} \/ Holds(f)
 =====================================================================
